@@ -14,11 +14,11 @@ LEVEL = 'model_checking'
 RULE = ('(a) every history of depth <= D over the event menu {start (and take the first answer of) an enumeration of '
         'p(X) / retract(p(X)) / retract(p(a)) in a free slot (<= 2 suspended at once); step slot 1|2; close slot 1|2; '
         'asserta(p(c)); assertz(p(c)); retract(p(b)) once; retractall(p(a))} from the initial stores [] [a] [a,b] '
-        '[a,b,a] (and, over a 10-event alphabet with the partially bound patterns retract(p(f(X))) / retractall(p(f(_))) and clear(), from the store [f(a),b,f(b),f(a)]; and over an 11-event alphabet with the ground call p(a) and asserta/assertz of p(a) from [a,b,a]), replayed on a fresh engine through the Python API with the reference model (logical update view: '
+        '[a,b,a] (and, over a 10-event alphabet with the partially bound patterns retract(p(f(X))) / retractall(p(f(_))) and clear(), from the store [f(a),b,f(b),f(a)]; and over an 11-event alphabet with the ground call p(a) and asserta/assertz of p(a) from [a,b,a]; and over the 11 base events to depth D-1 from the store [a, _, b] whose middle fact is p(_)), replayed on a fresh engine through the Python API with the reference model (logical update view: '
         'snapshot of fact identities when the goal starts; a retract skips facts that are gone) stepped alongside; after '
         'EVERY event the answer / exhaustion of the enumeration and the store read back must equal the model\'s. '
         '(b) every clause body of <= G goals over {p(X) p(Y) assertz(p(c)) asserta(p(c)) retract(p(X)) retract(p(Y)) '
-        'retract(p(a)) fail} compiled and run from each initial store under a deterministic step budget (termination), '
+        'retract(p(a)) once(retract(p(X))) fail} compiled and run from each initial store under a deterministic step budget (termination), '
         'answers and final store compared with RefProlog; plus the classic drain and counter-update loops. '
         '[thorough: (c) explicit-state search over the model, one representative history per distinct model state, to '
         'depth 9.] states = distinct canonical model states (store + suspended enumerations); transitions = events '
@@ -29,7 +29,7 @@ ASSUMPTIONS = ['an enumeration "starts" when its first answer is requested (crea
 X = V('X')
 a, b, c = A('a'), A('b'), A('c')
 fa, fb = F('f', a), F('f', b)
-INITIAL = [[], [a], [a, b], [a, b, a], [fa, b, fb, fa]]
+INITIAL = [[], [a], [a, b], [a, b, a], [fa, b, fb, fa], [a, V('FactVar'), b]]
 STARTS = {'qa': F('p', a), 'q': F('p', X), 'rX': F('retract', F('p', X)), 'ra': F('retract', F('p', a)), 'rf': F('retract', F('p', F('f', X)))}
 EVENTS = ['start:q', 'start:rX', 'start:ra', 'step:1', 'step:2', 'close:1', 'close:2',
           'asserta', 'assertz', 'retract_b', 'retractall_a']
@@ -171,7 +171,9 @@ def run_history(init, hist):
 # ---------------------------------------------------------------- (b) in-clause forms
 Y = V('Y')
 GOALS = [call(F('p', X)), call(F('p', Y)), call(F('assertz', F('p', c))), call(F('asserta', F('p', c))),
-         call(F('retract', F('p', X))), call(F('retract', F('p', Y))), call(F('retract', F('p', a))), FAIL]
+         call(F('retract', F('p', X))), call(F('retract', F('p', Y))), call(F('retract', F('p', a))), FAIL,
+         # a goal with a side effect under once/1: backtracking into it must not run it further
+         call(F('once', F('retract', F('p', X))))]
 
 
 def body_cases(gmax):
@@ -237,6 +239,8 @@ def run_shard(spec):
         work = [(idx, hist, ii) for idx, hist in enumerate(histories(depth)) if idx % n == k for ii in range(4)]
         work += [(10 ** 7 + idx, hist, 4) for idx, hist in enumerate(itertools.product(STRUCT_EVENTS, repeat=depth)) if idx % n == k]
         work += [(2 * 10 ** 7 + idx, hist, 3) for idx, hist in enumerate(itertools.product(BOUND_EVENTS, repeat=depth)) if idx % n == k]
+        # a store in which one fact is p(_): using it binds (a renamed copy of) its variable
+        work += [(3 * 10 ** 7 + idx, hist, 5) for idx, hist in enumerate(itertools.product(EVENTS, repeat=depth - 1)) if idx % n == k]
         for idx, hist, ii in work:
             init = INITIAL[ii]
             if True:
